@@ -9,5 +9,7 @@ MCRules == { <<Ru(<<"app","public">>, FALSE, NoList), Ru(<<"app">>, TRUE, NoList
              <<Ru(<<>>, TRUE, NoList)>>,
              <<Ru(<<"app">>, TRUE, List({"c2"})), Ru(<<"app","public">>, FALSE, NoList)>>,
              <<Ru(<<"app","public">>, FALSE, NoList), Ru(<<>>, TRUE, List({"c1","c2"}))>>,
+             <<Ru(<<"app">>, FALSE, NoList), Ru(<<>>, TRUE, NoList)>>,
+             <<Ru(<<"app">>, TRUE, List({"c1"})), Ru(<<"app-x">>, TRUE, List({"c2"}))>>,
              <<>> }
 ====
